@@ -648,7 +648,23 @@ func (s *scope) interpretOps(obj pyObject, ops []OpExpression) pyObject {
 		}
 		tighter := ops[1:n]
 		ops = ops[n:]
-		if len(tighter) == 0 {
+		if op.Op.IsComparison() && len(ops) > 0 && ops[0].Op.IsComparison() {
+			// A chain of comparisons: a < b == c means a < b and b == c, with b evaluated once.
+			operand := s.interpretOps(s.interpretExpression(op.Expr), tighter)
+			result := s.interpretOp(obj, OpExpression{
+				Op:   op.Op,
+				Expr: &Expression{optimised: &optimisedExpression{Constant: operand}},
+			})
+			if result.IsTruthy() {
+				obj = operand // ... and the next comparison is made against it
+				continue
+			}
+			// The chain is false; none of its remaining operands are evaluated.
+			for len(ops) > 0 && ops[0].Op.Precedence() >= op.Op.Precedence() {
+				ops = ops[1:]
+			}
+			obj = result
+		} else if len(tighter) == 0 {
 			obj = s.interpretOp(obj, op)
 		} else if op.Op.Lazy() && obj.IsTruthy() != (op.Op == And) {
 			continue // short-circuits: the right operand is not evaluated
